@@ -130,12 +130,14 @@ def _case(i):
         loadable = valid and nkind == 'hyeong'
         predicted = None          # None = not predictable (only the allowed-outcome set is judged)
         admitted = False
+        ref_err = ''
         if loadable:
             prog = refparse.commands_only(refparse.parse(text))
             stext, bad_follows = split_valid_prefix(sdata)
             m, ro, re_, rend = P.admit(prog, stext, Limits(steps=3000))
             if not rend.startswith('notadmitted'):
                 admitted = True
+                ref_err = re_
                 if bad_follows and m.st['eof_reads'] > 0:
                     predicted = 'stdin_error'
                 elif rend in ('end', 'exit0'):
@@ -178,11 +180,13 @@ def _case(i):
                 problem = 'exit status %s is neither 0, 1' % p.rc
             elif p.rc == 1:
                 want = predicted if cname != 'check' else ('load_error' if not loadable else 'rc0')
+                own = ref_err if (cname != 'check' and admitted) else ''
+                diag = P.split_diag(err, own)[1].strip()
                 if want == 'exit1' and cname != 'check':
-                    if '[error]' in err:
+                    if diag:
                         problem = 'program requested exit 1 but a diagnostic was printed: %s' % C.clip(err, 200)
-                elif '[error]' not in err:
-                    problem = 'status 1 without a diagnostic line'
+                elif not diag:
+                    problem = 'status 1 without any diagnostic text on stderr'
                 if problem is None and want == 'rc0':
                     problem = 'status 1 where the model predicts status 0: %s' % C.clip(err, 200)
             else:
